@@ -28,32 +28,32 @@ type AtCall struct {
 	Ord    int // 0 = every occurrence
 	Assume bool
 	Ghost  *GhostUpdate // ghost assignment executed just before the call
-	Names  []string // names for results (assumes) — optional
+	Names  []string     // names for results (assumes) — optional
 	Clause *Clause
 }
 
 type FuncContract struct {
-	Pkg       string
-	Name      string
-	Requires  []*Clause
-	Ensures   []*Clause
-	Modifies  []string
-	ModNone   bool
-	HasMod    bool
-	WeakFrame map[int]bool // loops declared `freshwrites`: weak automatic frame + loop-frame obligations
-	LoopsIn   map[string]map[int][]*Clause // invariants for loops of inlined callees, by callee short name
-	Loops     map[int][]*Clause
-	AtCalls   []*AtCall
-	Thread    bool
-	Exits     []*Clause // thread-exit clauses
-	ChanInvs  []*ChanInv
-	Ghosts    []*GhostDecl
-	Extern    bool
-	LockFree  bool // takes no lock and touches no guarded state: callable with any locks held (verified with an arbitrary lock state)
-	Trusted   bool // contract is assumed, body not verified (interface methods, externals)
+	Pkg           string
+	Name          string
+	Requires      []*Clause
+	Ensures       []*Clause
+	Modifies      []string
+	ModNone       bool
+	HasMod        bool
+	WeakFrame     map[int]bool                 // loops declared `freshwrites`: weak automatic frame + loop-frame obligations
+	LoopsIn       map[string]map[int][]*Clause // invariants for loops of inlined callees, by callee short name
+	Loops         map[int][]*Clause
+	AtCalls       []*AtCall
+	Thread        bool
+	Exits         []*Clause // thread-exit clauses
+	ChanInvs      []*ChanInv
+	Ghosts        []*GhostDecl
+	Extern        bool
+	LockFree      bool // takes no lock and touches no guarded state: callable with any locks held (verified with an arbitrary lock state)
+	Trusted       bool // contract is assumed, body not verified (interface methods, externals)
 	SharedAtomics bool
-	File      string
-	Line      int
+	File          string
+	Line          int
 }
 
 // GhostUpdate: name[i1][i2].. = value
@@ -87,16 +87,16 @@ type TypeContract struct {
 	Replaced map[string]bool
 	// Confined: fields that are written after construction but by one goroutine only (reason given); assumptions
 	Confined map[string]string
-	LockInv   map[string][]*Clause
-	Ghosts    []*GhostDecl
+	LockInv  map[string][]*Clause
+	Ghosts   []*GhostDecl
 }
 
 type SpecFunc struct {
-	Name   string
-	Params []SpecParam
-	Result string // type text
-	Body   *Expr
-	Pkg    *packages.Package
+	Name     string
+	Params   []SpecParam
+	Result   string // type text
+	Body     *Expr
+	Pkg      *packages.Package
 	declared bool
 }
 
@@ -109,11 +109,13 @@ type Lemma struct {
 }
 
 type ContractDB struct {
-	externs map[string]*FuncContract // assumed contracts of functions outside the repository, by full name
-	funcs  map[string]*FuncContract // key pkgpath + "." + shortname
-	types  map[string]*TypeContract // key pkgpath + "." + name
-	specs  map[string]*SpecFunc
-	lemmas []*Lemma
+	externs       map[string]*FuncContract // assumed contracts of functions outside the repository, by declaring package \x00 full name
+	externsByName map[string][]*FuncContract
+	funcs         map[string]*FuncContract // key pkgpath + "." + shortname
+	types         map[string]*TypeContract // key pkgpath + "." + name
+	specs         map[string]*SpecFunc     // package path \x00 name
+	specsByName   map[string][]*SpecFunc
+	lemmas        []*Lemma
 	// axioms: defining equations of uninterpreted spec functions, per package; assumed at the entry of every
 	// function of that package and reported among the assumptions
 	axioms map[string][]*Clause
@@ -252,7 +254,14 @@ func (db *ContractDB) parseLines(p *packages.Package, file string, lines []srcLi
 			curType = nil
 			curLoop = 0
 			curFunc = &FuncContract{Pkg: p.PkgPath, Name: rest, Loops: map[int][]*Clause{}, File: file, Line: it.line, Trusted: true, Extern: true}
-			db.externs[rest] = curFunc
+			// an extern contract is what the declaring package assumes of a dependency (it may be stated in that
+			// package's own spec functions): it applies to calls from that package; elsewhere only if no other
+			// package declares one for the same function
+			db.externs[p.PkgPath+"\x00"+rest] = curFunc
+			if db.externsByName == nil {
+				db.externsByName = map[string][]*FuncContract{}
+			}
+			db.externsByName[rest] = append(db.externsByName[rest], curFunc)
 		case "type":
 			curFunc = nil
 			curType = &TypeContract{Pkg: p.PkgPath, Name: rest, GuardedBy: map[string]string{}, LockInv: map[string][]*Clause{}, Replaced: map[string]bool{}, Confined: map[string]string{}}
@@ -568,7 +577,16 @@ func (db *ContractDB) parseSpec(p *packages.Package, file string, line int, rest
 	} else {
 		sf.Result = tail
 	}
-	db.specs[sf.Name] = sf
+	// spec functions belong to the package whose contract file declares them
+	key := sf.Name
+	if p != nil {
+		key = p.PkgPath + "\x00" + sf.Name
+	}
+	db.specs[key] = sf
+	if db.specsByName == nil {
+		db.specsByName = map[string][]*SpecFunc{}
+	}
+	db.specsByName[sf.Name] = append(db.specsByName[sf.Name], sf)
 }
 
 func matchParen(s string, i int) int {
@@ -906,3 +924,38 @@ func exprString(e *Expr) string {
 }
 
 var _ = ast.NewIdent
+
+// findSpec resolves a spec function name from a contract of package p: the package's own declaration first, otherwise
+// the only declaration of that name anywhere (several packages may declare functions of the same name; they are
+// different functions).
+func (db *ContractDB) findSpec(p *packages.Package, name string) *SpecFunc {
+	if p != nil {
+		if sf, ok := db.specs[p.PkgPath+"\x00"+name]; ok {
+			return sf
+		}
+	}
+	if l := db.specsByName[name]; len(l) == 1 {
+		return l[0]
+	}
+	return nil
+}
+
+// smtName: the solver-level name of an uninterpreted spec function; qualified by its package when the name is
+// declared in more than one.
+func (db *ContractDB) smtName(sf *SpecFunc) string {
+	if len(db.specsByName[sf.Name]) > 1 && sf.Pkg != nil {
+		return "spec_" + sanitize(strings.TrimPrefix(sf.Pkg.PkgPath, repoPrefix+"/")) + "_" + sf.Name
+	}
+	return "spec_" + sf.Name
+}
+
+// findExtern: the extern contract for a dependency's function as seen from code of package pkgPath.
+func (db *ContractDB) findExtern(pkgPath, full string) *FuncContract {
+	if fc, ok := db.externs[pkgPath+"\x00"+full]; ok {
+		return fc
+	}
+	if l := db.externsByName[full]; len(l) == 1 {
+		return l[0]
+	}
+	return nil
+}
